@@ -12,6 +12,16 @@ HISTORY = {
     'C17': 'first trial: MISSED (only `maskGo`/`maskAsm` were exercised, the change is in the `mask` dispatcher) → `VerifMask` export, dispatcher cases with empty pieces, zero-length reads in wire-in scripts',
     'C18': 'first trial: MISSED → netconn suite sets deadlines (past / near future) from another goroutine while the call is blocked',
     'C20': 'first trial: reported without a failing input (sched replay disagreed) → life scenarios with a Close whose frame cannot be marshalled, goroutine snapshot taken when Close returns (before the harness cleans up)',
+    'R3-A': 'third round (area: frame header encoder / writeFrame). First trial: MISSED — `C02` had no concurrent writers; now the sched suite (extra pinger goroutines, slow transport) runs for C02 too and its judge requires every masking key to be unique (`sched:mask-key-repeated`); the race detector does not see this one (crypto/rand writes through a syscall)',
+    'R3-B': 'third round (area: trimLastFourBytesWriter); caught at the first trial by the pair and wire-out suites',
+    'R3-C': 'third round (area: sliding window / dictionary). First trial: MISSED — the scripted sender never referred back across a BFINAL-terminated message (and the level-1 encoder ignores a preset dictionary) → the sender now keeps the plain-text window and starts fresh streams with it at a dictionary-aware level; family `bfinal-takeover-repeat`',
+    'R3-D': 'third round (area: write-side timeout hand-over). First trial: MISSED → generic trace check "every frame is written with its context armed" and scenarios `stream-write-pong-between-then-cancel`, `cancel-during-stream-write`',
+    'R3-E': 'third round (area: the channel mutex). First trial: MISSED → impatient writers (contexts of a few hundred microseconds) in the sched suite, a hook event for a lock wait that is given up, the `EGiveUp` transition in `Sched.v` (proofs repaired), and the replay flags a goroutine that releases msgWriter.mu while another one holds it (`sched:foreign-unlock`). The impatient writers also exposed the genuine defect repaired in fc4c3d6',
+    'R3-F': 'third round (area: close payload codec); caught at the first trial (the same class as `seeded/R2-C06`)',
+    'R3-G': 'third round (area: header token parsing); caught at the first trial by the hs-accept grid (repeated header lines)',
+    'R3-H': 'third round (area: authenticateOrigin). First trial: MISSED → origin patterns that carry a scheme and origins with the authorised suffix in their query / fragment added to the hs-accept grid',
+    'R3-I': 'third round (area: handshakeRequest). First trial: MISSED → hs-dial re-uses the caller\'s `HTTPHeader` map after an earlier Dial with other options and checks that Dial leaves it untouched (`hs-dial:caller-headers-modified`)',
+    'R3-J': 'third round (area: netconn close / EOF translation). First trial: MISSED → netconn kinds `drop` (transport EOF / failure / protocol error without a Close frame must not read as io.EOF) and an `eof` flag on interrupted calls',
     'R2-C04': 'second round, first trial: MISSED (the sweep of cut offsets used only 7-bit frame lengths) → header-region cut sweep over every length encoding and order (16-bit first on a fresh connection, after a 64-bit one, after a multiple of 256), both roles, both endings',
     'R2-C07': 'second round, first trial: MISSED (the suite always read a message to its end before the next one) → histories that start the next message after reading only a prefix of a small compressed one (`msgnf` / `plainnf`); the replay then reports `put-by-non-holder`',
     'R2-C02': 'second round; the sub-agent arrived at the same slip as `seeded/C01` independently',
@@ -24,7 +34,7 @@ HISTORY = {
 }
 print('| seeded change (property it breaks) | what it does | what it needs to show | confirmed | checks run on it → result (current machinery) | history |')
 print('|---|---|---|---|---|---|')
-for d in sorted(glob.glob(os.path.join(ROOT, 'seeded', 'C*'))) + sorted(glob.glob(os.path.join(ROOT, 'seeded', 'R2-C*'))):
+for d in sorted(glob.glob(os.path.join(ROOT, 'seeded', 'C*'))) + sorted(glob.glob(os.path.join(ROOT, 'seeded', 'R2-C*'))) + sorted(glob.glob(os.path.join(ROOT, 'seeded', 'R3-*'))):
     sid = os.path.basename(d)
     try:
         meta = json.load(open(os.path.join(d, 'meta.json')))
